@@ -9,7 +9,7 @@ from gen import B, M
 PID = 'C11'
 LEVEL = 'exploration'
 VARIANTS = {'quick': ['asan', 'plain', 'none'], 'thorough': ['asan', 'plain', 'none', 'pinned']}
-RULE = ('integers +-(2^k+d), k in {0,7,8,15,16,31,32,52,53,54,63,64,65,127,128,1023,1024,1025,1074}, d in -2..2; values with 54..130 '
+RULE = ('[also: mpq partners that agree on every low limb of numerator/denominator and differ only above them or lack the top limb] integers +-(2^k+d), k in {0,7,8,15,16,31,32,52,53,54,63,64,65,127,128,1023,1024,1025,1074}, d in -2..2; values with 54..130 '
         'significant bits whose discarded part is just below / exactly / just above one half; doubles +-(1+j*2^-52)*2^e at boundary e, '
         'subnormals, +-0, +-inf, DBL_MAX; rationals with huge/small exponent difference; mpf with exponents +-1,+-16,+-17,+-1100 limbs. '
         'All mpz/mpq/mpf cmp functions judged by the exact order (sign only), set/get/fits functions by exact truncation models; run on '
